@@ -28,9 +28,18 @@ const IDENT = /^[A-Za-z_$][A-Za-z0-9_$]*$/;
 const OVERFLOW = Object.freeze({ membrane: 'overflow' });   // thrown into the program when a log is full
 const TIMEOUT = Object.freeze({ membrane: 'timeout' });     // internal: promise never settled
 const THUNK = '__membrane_thunk__';
+// displayErrors:false => node does not decorate (i.e. read `.stack` of) values thrown out of the
+// script, which would otherwise show up as a spurious `get stack` on a thrown membrane object.
+const RUN_OPTS = Object.freeze({ timeout: TIMEOUT_MS, displayErrors: false });
 
 // Rejections of program promises nobody handles must not kill the runner.
-process.on('unhandledRejection', () => {});
+// (Only while a job is active; otherwise, if nobody else listens, re-raise like node's default.)
+let activeJobs = 0;
+process.on('unhandledRejection', (e) => {
+  if (activeJobs > 0 || process.listenerCount('unhandledRejection') > 1) return;
+  setImmediate(() => { throw e; });
+});
+process.on('rejectionHandled', () => {});   // (suppresses PromiseRejectionHandledWarning noise)
 
 // Evaluated once in every fresh context (context-realm K / tag, deterministic Date / Math.random).
 const BOOT = new vm.Script(`(function (h, methods) {
@@ -329,7 +338,7 @@ function lookupEntry(R) {
 // Run a host thunk (which calls program code) under the vm timeout; drains microtasks afterwards.
 function callIn(R, thunk) {
   Object.defineProperty(R.sandbox, THUNK, { value: thunk, writable: true, enumerable: false, configurable: true });
-  try { return TRAMPOLINE.runInContext(R.ctx, { timeout: TIMEOUT_MS }); }
+  try { return TRAMPOLINE.runInContext(R.ctx, RUN_OPTS); }
   finally { try { delete R.sandbox[THUNK]; } catch (e) { /* ignore */ } }
 }
 
@@ -340,7 +349,7 @@ async function settle(R, p) {
   for (let i = 0; i < SETTLE_ROUNDS && !st; i++) {
     await tick();
     if (st) break;
-    EMPTY.runInContext(R.ctx, { timeout: TIMEOUT_MS });   // may throw the vm timeout error
+    EMPTY.runInContext(R.ctx, RUN_OPTS);   // may throw the vm timeout error
   }
   if (!st) { await tick(); if (!st) throw TIMEOUT; }
   if (st.ok) return st.v;
@@ -423,7 +432,7 @@ async function execScript(R, text) {
     script = new vm.Script(text, opts);
   } catch (e) { return { k: 'syntax', v: String(e && e.message) }; }
   let completion;
-  try { completion = script.runInContext(R.ctx, { timeout: TIMEOUT_MS }); }
+  try { completion = script.runInContext(R.ctx, RUN_OPTS); }
   catch (e) { return classify(R, e); }
   return finish(R, completion);
 }
@@ -537,6 +546,7 @@ function autoScenarios(job, defEffs, defLog) {
 
 async function runJob(job) {
   const id = job && typeof job === 'object' && 'id' in job ? job.id : null;
+  activeJobs++;
   try {
     if (!job || typeof job !== 'object') throw new Error('job must be an object');
     if (typeof job.in !== 'string') throw new Error('job.in must be a string');
@@ -567,6 +577,9 @@ async function runJob(job) {
     return { id, runs };
   } catch (e) {
     return { id, error: String((e && e.message) || e) };
+  } finally {
+    try { await tick(); } catch (e) { /* ignore */ }   // let late 'unhandledRejection' events of this job fire first
+    activeJobs--;
   }
 }
 
